@@ -155,6 +155,82 @@ class AssignDynamic(AssignContract):
             yield ("after removal no lanelet registers the obstacle at any time step", not any(inp["registry_after"].values()))
 
 
+@register
+class AssignDynamicNoPrediction(AssignContract):
+    target = SQ + "assign_obstacles_to_lanelets"
+    case = "dynamic obstacle without prediction"
+    describe = "initial time step only: sets are the geometric truth, registry is the inverse, removal clears the registry"
+
+    def build(self, F):
+        sc, net, las = base_scenario(F)
+        sh = local_rect(F, "sh_")
+        init = mk_initial_state(F, "init_", 3)
+        obs = F.new(DynamicObstacle, 11, ObstacleType.CAR, sh, init)
+        F.method(sc, "add_objects", obs)
+        occ = F.method(obs, "occupancy_at_time", 3)
+        for la in las.values():
+            F.assume(z3.Implies(center_in(F, la, F.attr(init, "position")), hits(F, la, F.attr(occ, "shape"))))
+        return {"sc": sc, "las": las, "obs": obs, "init": init, "args": [sc]}
+
+    def invoke(self, F, inp):
+        F.method(inp["sc"], "assign_obstacles_to_lanelets")
+        inp["center"] = members(F, F.attr(inp["obs"], "initial_center_lanelet_ids"))
+        inp["shape"] = members(F, F.attr(inp["obs"], "initial_shape_lanelet_ids"))
+        inp["registry"] = {lid: 11 in members(F, F.attr(la, "dynamic_obstacles_on_lanelet").get(3)) for lid, la in inp["las"].items()}
+        rem = F.attempt(lambda: F.method(inp["sc"], "remove_obstacle", inp["obs"]))
+        inp["registry_after"] = {lid: 11 in members(F, F.attr(la, "dynamic_obstacles_on_lanelet").get(3)) for lid, la in inp["las"].items()}
+        return rem
+
+    def post(self, F, inp, out):
+        yield ("assignment raises nothing", out.exc is None)
+        if out.exc is None:
+            for lid, la in inp["las"].items():
+                yield ("lanelet %d in the centre set <=> it contains the centre" % lid, z3.BoolVal(lid in inp["center"]) == center_in(F, la, F.attr(inp["init"], "position")))
+                yield ("lanelet %d registers the obstacle <=> it is in the shape set" % lid, inp["registry"][lid] == (lid in inp["shape"]))
+            yield ("removing the obstacle never fails", out.value.exc is None)
+            yield ("after removal no lanelet registers the obstacle", not any(inp["registry_after"].values()))
+
+
+@register
+class ReAddAfterRemove(AssignContract):
+    target = SQ + "add_objects"
+    case = "dynamic obstacle: add, remove, add again next to another obstacle on the same lanelets"
+    describe = "registries after add / remove / re-add are exactly the inverse of the carried shape assignment, also when the lanelet already holds entries for the time step"
+
+    def build(self, F):
+        sc, net, las = base_scenario(F)
+        sh = local_rect(F, "sh_")
+        def mk(oid, p):
+            pred = F.new(TrajectoryPrediction, F.new(Trajectory, 1, [mk_ks_state(F, p + "s0_", 1), mk_ks_state(F, p + "s1_", 2)]), sh, {1: {2}, 2: {2}}, {1: {1, 2}, 2: {2}})
+            return F.new(DynamicObstacle, oid, ObstacleType.CAR, sh, mk_initial_state(F, p + "init_", 0), pred, {1}, {1})
+        a, b = mk(11, "a_"), mk(12, "b_")
+        return {"sc": sc, "las": las, "a": a, "b": b, "args": []}
+
+    def registry(self, F, inp, oid):
+        return {(lid, t): oid in members(F, F.attr(la, "dynamic_obstacles_on_lanelet").get(t)) for lid, la in inp["las"].items() for t in (0, 1, 2)}
+
+    def invoke(self, F, inp):
+        sc = inp["sc"]
+        F.method(sc, "add_objects", inp["b"])
+        F.method(sc, "add_objects", inp["a"])
+        r1 = self.registry(F, inp, 11)
+        F.method(sc, "remove_obstacle", inp["a"])
+        r2 = self.registry(F, inp, 11)
+        F.method(sc, "add_objects", inp["a"])
+        r3 = self.registry(F, inp, 11)
+        return r1, r2, r3, self.registry(F, inp, 12)
+
+    def post(self, F, inp, out):
+        yield ("raises nothing", out.exc is None)
+        if out.exc is None:
+            exp = {(1, 0): True, (2, 0): False, (1, 1): True, (2, 1): True, (1, 2): False, (2, 2): True}
+            r1, r2, r3, rb = out.value
+            yield ("after add: registered per time step on exactly the shape lanelets", r1 == exp)
+            yield ("after remove: not registered anywhere", not any(r2.values()))
+            yield ("after adding again: registered exactly as before", r3 == exp)
+            yield ("the other obstacle's registration is untouched", rb == exp)
+
+
 for _role in ("static", "dynamic"):
 
     @register
